@@ -35,6 +35,10 @@ OFS = {
     ':not(.x)': [[{'pseudos': [('not', [[{'classes': ['x']}]])]}]],
     'a, .x': [[{'tag': (None, 'a')}], [{'classes': ['x']}]],
     'div > .x': [[{'tag': (None, 'div')}, '>', {'classes': ['x']}]],
+    # filters that depend on the sibling's own position (a memo of "matches S" must not confuse look-alike siblings)
+    'a + a': [[{'tag': (None, 'a')}, '+', {'tag': (None, 'a')}]],
+    ':not(:first-child)': [[{'pseudos': [('not', [[{'pseudos': [('first-child',)]}]])]}]],
+    '.x ~ *': [[{'classes': ['x']}, '~', {'tag': (None, '*')}]],
 }
 KEYWORDS = {'first-child': [('nth-child', 0, 1)], 'last-child': [('nth-last-child', 0, 1)],
             'only-child': [('nth-child', 0, 1), ('nth-last-child', 0, 1)],
@@ -119,9 +123,12 @@ def build(seq, inter, place, variant):
     nodes += filler(0)
     for i, ch in enumerate(seq):
         t = soup.new_tag(ch)
-        if (i * 7 + variant) % 3 != 1:
+        if variant == 2:
+            t['class'] = ['x']                     # look-alike siblings: equal by value (no ids, same class)
+        elif (i * 7 + variant) % 3 != 1:
             t['class'] = ['x']
-        t['id'] = 's%d' % i
+        if variant != 2:
+            t['id'] = 's%d' % i
         sibs.append(t)
         nodes.append(t)
         nodes += filler(i + 1)
@@ -262,7 +269,7 @@ def run_unit(u):
                                     record(st, seq, inter, place, variant, text, klist, got, exp, sibs)
                                 if kind in ('nth-child', 'nth-last-child'):
                                     for of_text, of_ast in OFS.items():
-                                        if (a + b + len(of_text)) % 2 and len(seq) > 3:
+                                        if (a + b + len(of_text)) % 2 and len(seq) > 3 and variant != 2:
                                             continue
                                         text = render_nth(kind, sp[0], of_text, '')
                                         klist = [(kind, a, b, of_ast)]
